@@ -70,6 +70,9 @@ pub struct EncSummary {
     /// an additional one-byte integer property (type 16, needs format
     /// version 1) under an id the library has no getter for
     pub extra_i1: Option<(u32, i8)>,
+    /// write an empty string as a value of size 0 with no characters at all
+    /// (MS-OLEPS 2.5 allows it) instead of size 1 with only the terminator
+    pub empty_as_size_zero: bool,
 }
 
 #[derive(Clone, Debug)]
@@ -275,6 +278,10 @@ pub fn encode_summary(s: &EncSummary, cp: i32) -> Vec<u8> {
         let b = ref_encode(cp, t);
         let mut v = Vec::new();
         v.extend_from_slice(&30u32.to_le_bytes());
+        if b.is_empty() && s.empty_as_size_zero {
+            v.extend_from_slice(&0u32.to_le_bytes());
+            return v;
+        }
         v.extend_from_slice(&((b.len() + 1) as u32).to_le_bytes());
         v.extend_from_slice(&b);
         v.push(0);
@@ -589,5 +596,6 @@ pub fn default_summary() -> EncSummary {
         section_offset: 48,
         format_version: 0,
         extra_i1: None,
+        empty_as_size_zero: false,
     }
 }
